@@ -84,7 +84,10 @@ class Explorer:
         fs = _abstract_array_predicates(list(self.pc) + list(self.assumptions) + [extra])
         s.add(*fs)
         self.n_feas_checks += 1
-        r = s.check()
+        try:
+            r = s.check()
+        except z3.Z3Exception:  # e.g. "canceled" when a timeout fires inside the solver: same as unknown
+            r = z3.unknown
         if r == z3.unknown:
             self.n_unknown_feas += 1
             return True
@@ -94,7 +97,10 @@ class Explorer:
         s = z3.Solver()
         s.set("timeout", self.feas_timeout_ms)
         s.add(*_abstract_array_predicates(list(self.pc) + list(self.assumptions)))
-        if s.check() != z3.sat:
+        try:
+            if s.check() != z3.sat:
+                return None
+        except z3.Z3Exception:
             return None
         v = s.model().eval(term, model_completion=True)
         return v.as_long() if z3.is_int_value(v) else None
@@ -141,6 +147,8 @@ class Explorer:
                     v, outcome = e, "abort"
                 except Infeasible:
                     v, outcome = None, "infeasible"
+                except z3.Z3Exception as e:  # solver-side failure while executing proxies: undecided, never a verdict about the code
+                    v, outcome = ShadowAbort(f"z3 exception: {e}"), "abort"
                 except Exception as e:  # the code under test raised
                     v, outcome = e, "raise"
                 if outcome != "infeasible":
